@@ -61,8 +61,10 @@ var c08codes = []struct {
 	width int
 }{{0xcc, 1}, {0xcd, 2}, {0xd0, 1}, {0xd3, 8}, {0xcf, 8}, {0xcb, 8}}
 
+var c08floats = 0
+
 func c08rec(h *verifrt.H, key string) (treasure.Treasure, valuecanon.Key) {
-	c := c08codes[h.Choose("leafCode", len(c08codes)-1+h.Param("floats", 0))]
+	c := c08codes[h.Choose("leafCode", len(c08codes)-1+c08floats)]
 	body := append([]byte{0x81, 0xa1, 'f', c.code}, h.Bytes("leaf", c.width)...)
 	t := treasure.New(nil)
 	g := t.StartTreasureGuard(true, guard.BodyAuthID)
@@ -79,6 +81,20 @@ func c08rec(h *verifrt.H, key string) (treasure.Treasure, valuecanon.Key) {
 // lookup of a symbolic value of any numeric kind returns exactly the records a full scan with
 // the canonical equality rule selects.
 func VerifC08Bucket(h *verifrt.H) {
+	c08floats = h.Param("floats", 0)
+	c08bucket(h)
+}
+
+// VerifC08BucketFloat: the same with float64 leaves and float64 lookups included (every
+// cross-kind pair int/uint/float, fully symbolic, so integers beyond 2^53 that a float64
+// holds exactly are covered); without mutation steps in the quick tier, because each
+// int<->float conversion query is expensive.
+func VerifC08BucketFloat(h *verifrt.H) {
+	c08floats = 1
+	c08bucket(h)
+}
+
+func c08bucket(h *verifrt.H) {
 	h.Stub("github.com/vmihailenco/msgpack/v5.Unmarshal", c08decode)
 	b := New("f").(*bucket)
 	type rec struct {
@@ -91,7 +107,7 @@ func VerifC08Bucket(h *verifrt.H) {
 	snap := map[string]treasure.Treasure{"r1": t1}
 	h.Assert(b.BuildEquality(snap) == nil, "build")
 	var probe any
-	switch h.Choose("probeKind", 2+h.Param("floats", 0)) {
+	switch h.Choose("probeKind", 2+c08floats) {
 	case 0:
 		probe = h.Int64("probe")
 	case 1:
